@@ -15,12 +15,16 @@
 (* defects switched on, used to name a regression) and the input class of every code.              *)
 EXTENDS CMap, Json
 
-CONSTANTS Lens, NCodes, MaxDefs, Dev_h34, Dev_h35, Emit, KnownClasses, BaseVal, Rich
+CONSTANTS Lens, NCodes, MaxDefs, Dev_h34, Dev_h35, Emit, KnownClasses, BaseVal, Rich,
+          Styles,          \* the styles (CMap!Program) explored as a dimension: every state carries one, chosen in Init
+          Dev_gram,        \* grammar and font-dictionary switches g2..g7, f1 (TRUE = as the code is)
+          SingleRangeStr   \* allow bfrange lo = hi with a string target (so that NCodes = 1 has every entry form)
 
-VARIABLES defs, maps
-vars == <<defs, maps>>
+VARIABLES defs, maps, sty
+vars == <<defs, maps, sty>>
 
 dev == [h34 |-> Dev_h34, h35 |-> Dev_h35]
+gdev == [g2 |-> Dev_gram, g3 |-> Dev_gram, g4 |-> Dev_gram, g5 |-> Dev_gram, g6 |-> Dev_gram, g7 |-> Dev_gram, f1 |-> Dev_gram]
 ASSUME Dev_h35 => Dev_h34             \* a value without a base can only be read from the range start
 ASSUME Lens \subseteq 1..3 /\ NCodes \in 1..8
 
@@ -36,26 +40,42 @@ ArrForms   == IF Rich THEN {1, 2} ELSE {2}
 ArrA(n) == [i \in 1..n |-> <<97 + i>>]
 ArrB(n) == [i \in 1..n |-> IF i % 2 = 1 THEN <<102, 108 + i>> ELSE <<55357, 56840 + i>>]
 
-Init == defs = <<>> /\ maps = EmptyMaps
+\* ---- the style dimension
+GapSeps == {<<>>, <<"sp">>, <<"tab">>, <<"lf">>, <<"cr">>, <<"crlf">>, <<"ff">>, <<"nul">>, <<"cmt">>,
+            <<"sp", "lf", "tab">>, <<"cmt", "sp">>, <<"lf", "ff">>}
+HexSeps == {<<"sp">>, <<"lf">>, <<"crlf">>, <<"ff">>, <<"nul">>, <<"tab", "sp">>}
+GapStyles   == {[k |-> "gap", a |-> g, b |-> "", s |-> q] : g \in BfGaps \cup HdrGaps, q \in GapSeps}
+HexStyles   == {[k |-> "hex", a |-> "src", b |-> p, s |-> q] : p \in {"lead", "nib", "byte", "trail"}, q \in HexSeps}
+               \cup {[k |-> "hex", a |-> "tgt", b |-> p, s |-> q] : p \in {"lead", "nib", "byte", "unit", "trail"}, q \in HexSeps}
+EmptyStyles == {[k |-> "empty", a |-> w, b |-> "", s |-> <<>>] : w \in {"char.first", "range.first", "char.last", "range.last"}}
+HeadStyles  == {[k |-> "head", a |-> h, b |-> "", s |-> <<>>] : h \in {"dictdup", "order"} \cup ExtraKeyHeads}
+FontStyles  == {[k |-> "font", a |-> f, b |-> "", s |-> <<>>] : f \in FontForms}
+CanonOnly   == {Canon}
+AllStyles   == CanonOnly \cup GapStyles \cup HexStyles \cup EmptyStyles \cup HeadStyles \cup FontStyles
+\* a font with one of the four base encodings is a simple font: its codes are single bytes
+GramStyles  == {st \in AllStyles : ~(st.k = "font" /\ st.a \in BaseForms)}
+FontOnly    == CanonOnly \cup FontStyles
+
+Init == defs = <<>> /\ maps = EmptyMaps /\ sty \in Styles
 
 \* one call of put_char / put
 AddChar ==
     /\ Len(defs) < MaxDefs
     /\ \E l \in Lens : \E c \in Codes(l) : \E u \in SingleVals \cup MultiVals :
           LET d == MkDef("char", l, c, c, Str(u)) IN
-          defs' = Append(defs, d) /\ maps' = Put(dev, maps, d)
+          defs' = Append(defs, d) /\ maps' = Put(dev, maps, d) /\ UNCHANGED sty
 
 AddRangeStr ==
     /\ Len(defs) < MaxDefs
     /\ \E l \in Lens : \E lo \in Codes(l) : \E hi \in Codes(l) : \E u \in SingleVals \cup MultiVals :
           LET d == MkDef("range", l, lo, hi, Str(u)) IN
-          lo < hi /\ defs' = Append(defs, d) /\ maps' = Put(dev, maps, d)
+          (lo < hi \/ (SingleRangeStr /\ lo = hi)) /\ defs' = Append(defs, d) /\ maps' = Put(dev, maps, d) /\ UNCHANGED sty
 
 AddRangeArr ==
     /\ Len(defs) < MaxDefs
     /\ \E l \in Lens : \E lo \in Codes(l) : \E hi \in Codes(l) : \E f \in ArrForms :
           LET d == MkDef("range", l, lo, hi, Arr(IF f = 1 THEN ArrA(hi - lo + 1) ELSE ArrB(hi - lo + 1))) IN
-          lo <= hi /\ defs' = Append(defs, d) /\ maps' = Put(dev, maps, d)
+          lo <= hi /\ defs' = Append(defs, d) /\ maps' = Put(dev, maps, d) /\ UNCHANGED sty
 
 Next == AddChar \/ AddRangeStr \/ AddRangeArr
 Spec == Init /\ [][Next]_vars
@@ -66,6 +86,18 @@ AllCodes == FoldLeft(LAMBDA acc, l : acc \o [i \in 1..NCodes |-> <<l, BaseVal[l]
 CovSeq   == SelectSeq(AllCodes, LAMBDA c : Covered(defs, c[1], c[2]))
 BytesSeq(cs) == FoldLeft(LAMBDA acc, c : acc \o BytesOf(c[1], c[2]), <<>>, cs)
 
+Hash == FoldLeft(LAMBDA h, d : (h * 7 + (d.lo - BaseVal[d.len]) * 3 + (d.hi - BaseVal[d.len]) + d.len + Len(d.t.u) + Len(d.t.a)) % 9973,
+                 Len(defs), defs)
+\* tolerated variation (what lopdf's grammar takes everywhere as the code is), chosen from the definitions
+TvOf(n) == [lower |-> n % 2 = 1,
+            sp    |-> CASE n % 3 = 0 -> <<"sp">> [] n % 3 = 1 -> <<>> [] OTHER -> <<"tab", "sp">>,
+            nl    |-> CASE n % 4 = 0 -> <<"lf">> [] n % 4 = 1 -> <<"crlf">> [] n % 4 = 2 -> <<"sp", "lf">> [] OTHER -> <<"cr">>,
+            usp   |-> n % 5 = 0,
+            head  |-> ((n \div 2) % 2) + 1]
+CodeSpace == [i \in 1..Len(LenSeq) |-> <<LenSeq[i], BaseVal[LenSeq[i]], BaseVal[LenSeq[i]] + NCodes - 1>>]
+FontForm  == IF sty.k = "font" THEN sty.a ELSE <<"absent", "Identity-H", "Identity-V", "dict.diff">>[(Hash % 4) + 1]
+Accepts   == ImplAccepts(gdev, defs, CodeSpace, TvOf(Hash), sty, FontForm)
+
 Got(c)      == ImplGet(dev, maps, c[1], c[2])
 Mismatch(c) == Got(c) # Lookup(defs, c[1], c[2])
 
@@ -74,6 +106,7 @@ Refines ==
     /\ \A i \in 1..Len(AllCodes) : LET c == AllCodes[i] IN
           IF Covered(defs, c[1], c[2]) THEN ~Mismatch(c) ELSE Got(c) = <<>>
     /\ ImplDecodeUnits(dev, maps, BytesSeq(CovSeq)) = Units(defs, CovSeq)
+    /\ Accepts                               \* every legal spelling and every font dictionary leads to the CMap
 
 \* every counter-example to Refines is one of the listed classes (none as the code is; the four former
 \* classes with the deviations seeded back)
@@ -81,6 +114,9 @@ RefinesExceptKnown ==
     \A i \in 1..Len(AllCodes) : LET c == AllCodes[i] IN
           IF Covered(defs, c[1], c[2]) THEN (Mismatch(c) => CaseClass(defs, c[1], c[2]) \in KnownClasses)
           ELSE Got(c) = <<>>
+
+\* ... and a rejected spelling / font dictionary is one of the listed classes
+AcceptsExceptKnown == Accepts \/ StyleClass(sty) \in KnownClasses
 
 \* strict refinement that reports its counter-example (used with the repaired defects seeded back: must be
 \* violated, and the reported classes must be the former findings)
@@ -96,19 +132,11 @@ SegmentationOK ==
          ELSE FoldLeft(LAMBDA acc, c : acc \o Got(c), <<>>, cs))
 
 MapsOK    == \A l \in 1..4 : MapInv(maps[l])
-DomainOK  == WellFormed(defs) /\ PrefixFree(defs)          \* the generator stays inside the property's domain
+DomainOK  == /\ WellFormed(defs) /\ PrefixFree(defs) /\ StyleLegal(sty)
+             /\ (sty.k = "font" /\ sty.a \in BaseForms => \A i \in 1..Len(defs) : defs[i].len = 1)          \* the generator stays inside the property's domain
 BuildForm == maps = BuildMaps(dev, defs)                    \* function form = action form
 
 -----------------------------------------------------------------------------
-Hash == FoldLeft(LAMBDA h, d : (h * 7 + (d.lo - BaseVal[d.len]) * 3 + (d.hi - BaseVal[d.len]) + d.len + Len(d.t.u) + Len(d.t.a)) % 9973,
-                 Len(defs), defs)
-StyleOf(n) == [lower |-> n % 2 = 1,
-               sp    |-> CASE n % 3 = 0 -> " " [] n % 3 = 1 -> "" [] OTHER -> "\t ",
-               nl    |-> CASE n % 4 = 0 -> "\n" [] n % 4 = 1 -> "\r\n" [] n % 4 = 2 -> " \n" [] OTHER -> "\r",
-               usp   |-> n % 5 = 0,
-               head  |-> ((n \div 2) % 3) + 1]
-CodeSpace == [i \in 1..Len(LenSeq) |-> <<LenSeq[i], BaseVal[LenSeq[i]], BaseVal[LenSeq[i]] + NCodes - 1>>]
-
 ImplChars(c) == LET g == Got(c) IN IF g = Panic THEN Panic ELSE Text(g)
 \* what the interval maps with the repaired defects (h34, h35) would answer
 devOld == [h34 |-> TRUE, h35 |-> TRUE]
@@ -119,7 +147,8 @@ EmitInv ==
         LET cs == CovSeq IN
         PrintT(<<"REPLAY", ToJson([
             d |-> defs,
-            t |-> Program(defs, CodeSpace, StyleOf(Hash)),
+            t |-> Program(defs, CodeSpace, TvOf(Hash), sty),
+            f |-> FontForm, s |-> sty, sc |-> StyleClass(sty), ma |-> Accepts,
             c |-> [i \in 1..Len(cs) |-> BytesOf(cs[i][1], cs[i][2])],
             e |-> [i \in 1..Len(cs) |-> Text(Lookup(defs, cs[i][1], cs[i][2]))],
             m |-> [i \in 1..Len(cs) |-> ImplChars(cs[i])],
